@@ -447,6 +447,17 @@ class Ref:
                     return "unknown"  # incl. "det:<key>": a reaction that is not in the model
             self.obj = {rid: c for rid, c in items if c != 0}
             return "ok"
+        if how in ("expr", "optlang"):
+            for rid, _ in items:
+                if rid not in self.rxns:
+                    return "unknown"
+            obj = {}
+            for rid, c in items:
+                obj[rid] = obj.get(rid, 0) + c
+            self.obj = {k: v for k, v in obj.items() if v != 0}
+            # a bare expression becomes an objective with optlang's default direction; a ready-made objective brings its own
+            self.direction = "max" if how == "expr" else op.get("dir", "max")
+            return "ok"
         if how == "index":
             order = env.observed.get("rxn_order") or []
             try:
@@ -666,6 +677,7 @@ class Ref:
     t_solver = t_optimize
     t_det_mutate = t_optimize  # a detached object is edited: no model may change
     t_prune = t_optimize  # returns a new model; the input is left alone
+    t_config_bounds = t_optimize  # a process-global default: no model changes
 
     def t_tolerance(self, op, env):
         return "ok"
